@@ -136,7 +136,8 @@ def forced_record(tmp, scen, files_ok, single):
         res = calc_file_signatures(KS, seqfiles(paths), progress=ex.meter_factory, executor=ex, max_workers=scen.get('max_workers'),
                                    concurrency=scen.get('concurrency', 'processes'))
         r['outcome'] = 'returned'
-        r['sigs'] = [which(s, single) for s in res]
+        # position j holds file j's signature -> j+1; otherwise whichever file's signature it is (0 = none)
+        r['sigs'] = [j + 1 if (j < len(single) and which(s, [single[j]]) == 1) else which(s, single) for j, s in enumerate(res)]
         r['kspec_ok'] = res.kmerspec == KS
     except BaseException as e:
         r['outcome'] = 'raised'
@@ -211,7 +212,8 @@ def mode_record(paths, failing, concurrency, workers, single):
     try:
         res = calc_file_signatures(KS, seqfiles(paths), concurrency=concurrency, max_workers=workers)
         r['outcome'] = 'returned'
-        r['sigs'] = [which(s, single) for s in res]
+        # position j holds file j's signature -> j+1; otherwise whichever file's signature it is (0 = none)
+        r['sigs'] = [j + 1 if (j < len(single) and which(s, [single[j]]) == 1) else which(s, single) for j, s in enumerate(res)]
     except BaseException as e:
         r['outcome'] = 'raised'
         r['err'] = type(e).__name__
@@ -332,6 +334,14 @@ def run(ctx):
                 rr['sigs'] = list(range(1, len(rr['sigs']) + 1)) if rr['outcome'] == 'returned' and all(x == 1 for x in rr['sigs']) else rr['sigs']
                 rr['sizes'] = 'only record-less files'
                 mrecs.append(rr)
+        # the same file listed more than once (the same path given twice, equal SequenceFile objects): one signature per LIST ENTRY
+        for conc in (None, 'threads', 'processes'):
+            for workers in ([None, 2] if conc else [None]):
+                for dup in ([0, 1, 0, 2], [2, 2, 2], [0, 1, 2, 3, 1, 0]):
+                    paths = [skew[j] for j in dup]
+                    rr = mode_record(paths, set(), conc, workers, [single_skew[j] for j in dup])
+                    rr['sizes'] = f'duplicates {dup}'
+                    mrecs.append(rr)
         # file-size permutations with fewer workers than files, and more files than CPUs with the default worker count
         perm_dir = os.path.join(tmp, 'perm')
         os.makedirs(perm_dir)
